@@ -7,7 +7,7 @@ package tokenizers
 //@ func (c *MustacheSpecialState) NextToken
 //@   requires c != nil && isScanner(scanner) && sc(scanner).position + 1 < len(sc(scanner).content)
 //@   requires forall i int :: 0 <= i && i < len(sc(scanner).content) ==> scalar(sc(scanner).content[i])
-//@   ensures[C04,C12] result != nil && isScanner(scanner) && sc(scanner).content == old(sc(scanner).content) && result.typ != Eof
+//@   ensures[C04,C12] result != nil && isScanner(scanner) && sc(scanner).content == old(sc(scanner).content) && result.typ != tokenizers.Eof
 //@   ensures[C04] spans(result.value, scanner, old(cur(scanner)), cur(scanner))
 //@   ensures[C12] result.line == L(seq(sc(scanner).content), old(cur(scanner))) && result.column == C(seq(sc(scanner).content), old(cur(scanner)))
 //@   assigns sc(scanner).position, sc(scanner).line, sc(scanner).column
